@@ -1315,8 +1315,10 @@ func (d *dealer) syncDelCalleeReg(callee *wamp.Session, regID wamp.ID) (bool, er
 	}
 
 	// Remove the callee from the registration.
+	found := false
 	for i := range reg.callees {
 		if reg.callees[i] == callee {
+			found = true
 			if d.debug {
 				d.log.Printf("Unregistered procedure %v (regID=%v) (callee=%v)",
 					reg.procedure, regID, callee.ID)
@@ -1329,6 +1331,10 @@ func (d *dealer) syncDelCalleeReg(callee *wamp.Session, regID wamp.ID) (bool, er
 			}
 			break
 		}
+	}
+	if !found {
+		// The session is not a callee of this registration.
+		return false, fmt.Errorf("session %v has no registration %v", callee.ID, regID)
 	}
 
 	// If no more callees for this registration, then delete the registration
